@@ -95,3 +95,234 @@ package parser
 //@ func Parse
 //@   trusted
 //@   assigns nothing
+
+// ---- the executable productions, transcribed from the grammar comments (C03) ----
+// Each production calls its sub-productions in the order the grammar gives, with the delimiters the
+// grammar gives, and builds its node from exactly their results, located from its first token.
+
+// `{open} item+ {close}` (zinteger) or `{open} item* {close}`
+//@ func reverse
+//@   props C03
+//@   nosafety
+//@   requires parser != nil && parser.Source != nil
+//@   at call expect: assert arg1 == openKind && calls("skip") == 0 && calls("parseFn") == 0
+//@   at call skip: assert arg1 == closeKind
+//@   at call parseFn: assert arg0 == parser
+//@   loop 1 ensures len(nodes) == atloop(1, len(nodes)) + 1 && calls("parseFn") == atloop(1, calls("parseFn")) + 1
+//@   ensures result1 == nil && zinteger ==> len(result0) >= 1
+//@   at call unexpectedEmpty: assert zinteger && len(nodes) == 0 && arg2 == openKind && arg3 == closeKind
+
+// SelectionSet : { Selection+ }
+//@ func parseSelectionSet
+//@   props C03 C18
+//@   nosafety
+//@   requires parser != nil && parser.Source != nil
+//@   at call reverse: assert arg0 == parser && arg1 == lexer.BRACE_L && arg3 == lexer.BRACE_R && arg4
+//@   loop 1 invariant len(selections) == rangeindex + 1
+//@   ensures result1 == nil ==> result0 != nil
+//@   ensures result1 == nil && result0.Loc != nil ==> result0.Loc.Start == old(parser.Token.Start)
+
+// Selection : Field | FragmentSpread | InlineFragment   (a spread starts with `...`)
+//@ func parseSelection
+//@   props C03
+//@   nosafety
+//@   requires parser != nil && parser.Source != nil
+//@   at call peek: assert arg1 == lexer.SPREAD
+//@   at call parseFragment: assert parser.Token.Kind == lexer.SPREAD
+//@   at call parseField: assert parser.Token.Kind != lexer.SPREAD
+
+// Field : Alias? Name Arguments? Directives? SelectionSet?        Alias : Name :
+//@ func parseField
+//@   props C03 C18
+//@   nosafety
+//@   requires parser != nil && parser.Source != nil
+//@   at call parseName#1: assert calls("skip") == 0
+//@   at call skip: assert arg1 == lexer.COLON && calls("parseName") == 1
+//@   at call parseName#2: assert calls("skip") == 1 && lastresult("skip")
+//@   at call parseArguments: assert calls("parseDirectives") == 0 && calls("parseSelectionSet") == 0
+//@   at call parseDirectives: assert calls("parseArguments") == 1 && calls("parseSelectionSet") == 0
+//@   at call peek: assert arg1 == lexer.BRACE_L && calls("parseDirectives") == 1
+//@   at call parseSelectionSet: assert parser.Token.Kind == lexer.BRACE_L
+//@   ensures result1 == nil ==> result0 != nil && result0.Name != nil
+//@   ensures result1 == nil && calls("parseName") == 2 ==> result0.Alias != nil
+//@   ensures result1 == nil && calls("parseName") == 1 ==> result0.Alias == nil
+//@   ensures result1 == nil && calls("parseSelectionSet") == 0 ==> result0.SelectionSet == nil
+//@   ensures result1 == nil && result0.Loc != nil ==> result0.Loc.Start == old(parser.Token.Start)
+//@   at call NewField: assert arg0.Name == name && arg0.Alias == alias && arg0.SelectionSet == selectionSet
+
+// Arguments : ( Argument+ )   (optional as a whole)
+//@ func parseArguments
+//@   props C03
+//@   nosafety
+//@   requires parser != nil && parser.Source != nil
+//@   at call peek: assert arg1 == lexer.PAREN_L
+//@   at call reverse: assert arg1 == lexer.PAREN_L && arg3 == lexer.PAREN_R && arg4 && parser.Token.Kind == lexer.PAREN_L
+//@   loop 1 invariant len(arguments) == rangeindex + 1
+//@   ensures old(parser.Token.Kind) != lexer.PAREN_L ==> result1 == nil && len(result0) == 0 && calls("reverse") == 0
+
+// Argument : Name : Value
+//@ func parseArgument
+//@   props C03 C18
+//@   nosafety
+//@   requires parser != nil && parser.Source != nil
+//@   at call parseName: assert calls("expect") == 0
+//@   at call expect: assert arg1 == lexer.COLON && calls("parseName") == 1 && calls("parseValueLiteral") == 0
+//@   at call parseValueLiteral: assert calls("expect") == 1 && !arg1
+//@   at call NewArgument: assert arg0.Name == name && arg0.Value == value
+
+// FragmentSpread : ... FragmentName Directives?      InlineFragment : ... TypeCondition? Directives? SelectionSet
+//@ func parseFragment
+//@   props C03 C18
+//@   nosafety
+//@   requires parser != nil && parser.Source != nil
+//@   at call expect: assert arg1 == lexer.SPREAD && calls("peek") == 0
+//@   at call parseFragmentName: assert parser.Token.Kind == lexer.NAME && parser.Token.Value != "on"
+//@   at call advance: assert parser.Token.Value == "on"
+//@   at call parseNamed: assert calls("advance") == 1
+//@   at call parseSelectionSet: assert calls("parseFragmentName") == 0 && calls("parseDirectives") == 1
+//@   at call NewFragmentSpread: assert arg0.Name == name && arg0.Directives == directives
+//@   at call NewInlineFragment: assert arg0.TypeCondition == typeCondition && arg0.Directives == directives && arg0.SelectionSet == selectionSet
+
+// FragmentDefinition : fragment FragmentName on TypeCondition Directives? SelectionSet
+//@ func parseFragmentDefinition
+//@   props C03 C18
+//@   nosafety
+//@   requires parser != nil && parser.Source != nil
+//@   at call expectKeyWord#1: assert arg1 == "fragment" && calls("parseFragmentName") == 0
+//@   at call parseFragmentName: assert calls("expectKeyWord") == 1
+//@   at call expectKeyWord#2: assert arg1 == "on" && calls("parseFragmentName") == 1 && calls("parseNamed") == 0
+//@   at call parseNamed: assert calls("expectKeyWord") == 2 && calls("parseDirectives") == 0
+//@   at call parseDirectives: assert calls("parseNamed") == 1 && calls("parseSelectionSet") == 0
+//@   at call parseSelectionSet: assert calls("parseDirectives") == 1
+//@   at call NewFragmentDefinition: assert arg0.Name == name && arg0.TypeCondition == typeCondition && arg0.Directives == directives && arg0.SelectionSet == selectionSet
+
+// FragmentName : Name but not `on`
+//@ func parseFragmentName
+//@   props C03
+//@   nosafety
+//@   requires parser != nil && parser.Source != nil
+//@   ensures old(parser.Token.Value) == "on" ==> result1 != nil
+//@   at call parseName: assert parser.Token.Value != "on"
+
+// Directives : Directive+ (optional)      Directive : @ Name Arguments?
+//@ func parseDirectives
+//@   props C03
+//@   nosafety
+//@   requires parser != nil && parser.Source != nil
+//@   at call peek: assert arg1 == lexer.AT
+//@   at call parseDirective: assert parser.Token.Kind == lexer.AT
+//@   ensures old(parser.Token.Kind) != lexer.AT ==> result1 == nil && len(result0) == 0
+//@ func parseDirective
+//@   props C03 C18
+//@   nosafety
+//@   requires parser != nil && parser.Source != nil
+//@   at call expect: assert arg1 == lexer.AT && calls("parseName") == 0
+//@   at call parseName: assert calls("expect") == 1 && calls("parseArguments") == 0
+//@   at call parseArguments: assert calls("parseName") == 1
+//@   at call NewDirective: assert arg0.Name == name && arg0.Arguments == args
+
+// Variable : $ Name
+//@ func parseVariable
+//@   props C03 C18
+//@   nosafety
+//@   requires parser != nil && parser.Source != nil
+//@   at call expect: assert arg1 == lexer.DOLLAR && calls("parseName") == 0
+//@   at call parseName: assert calls("expect") == 1
+//@   at call NewVariable: assert arg0.Name == name
+//@   ensures old(parser.Token.Kind) != lexer.DOLLAR ==> result1 != nil
+
+// VariableDefinitions : ( VariableDefinition+ ) (optional)
+//@ func parseVariableDefinitions
+//@   props C03
+//@   nosafety
+//@   requires parser != nil && parser.Source != nil
+//@   at call peek: assert arg1 == lexer.PAREN_L
+//@   at call reverse: assert arg1 == lexer.PAREN_L && arg3 == lexer.PAREN_R && arg4 && parser.Token.Kind == lexer.PAREN_L
+//@   ensures old(parser.Token.Kind) != lexer.PAREN_L ==> result1 == nil && len(result0) == 0 && calls("reverse") == 0
+
+// VariableDefinition : Variable : Type DefaultValue?      DefaultValue : = Value[Const]
+//@ func parseVariableDefinition
+//@   props C03 C18
+//@   nosafety
+//@   requires parser != nil && parser.Source != nil
+//@   at call parseVariable: assert calls("expect") == 0
+//@   at call expect: assert arg1 == lexer.COLON && calls("parseVariable") == 1 && calls("parseType") == 0
+//@   at call parseType: assert calls("expect") == 1 && calls("skip") == 0
+//@   at call skip: assert arg1 == lexer.EQUALS && calls("parseType") == 1
+//@   at call parseValueLiteral: assert arg1 && lastresult("skip")
+//@   at call NewVariableDefinition: assert arg0.Variable == variable && arg0.Type == ttype && arg0.DefaultValue == defaultValue
+
+// OperationDefinition : SelectionSet | OperationType Name? VariableDefinitions? Directives? SelectionSet
+//@ func parseOperationDefinition
+//@   props C03 C18
+//@   nosafety
+//@   requires parser != nil && parser.Source != nil
+//@   at call peek#1: assert arg1 == lexer.BRACE_L
+//@   at call parseSelectionSet#1: assert parser.Token.Kind == lexer.BRACE_L && calls("parseOperationType") == 0
+//@   at call parseOperationType: assert parser.Token.Kind != lexer.BRACE_L
+//@   at call peek#2: assert arg1 == lexer.NAME && calls("parseOperationType") == 1
+//@   at call parseName: assert parser.Token.Kind == lexer.NAME && calls("parseVariableDefinitions") == 0
+//@   at call parseVariableDefinitions: assert calls("parseOperationType") == 1 && calls("parseDirectives") == 0
+//@   at call parseDirectives: assert calls("parseVariableDefinitions") == 1 && calls("parseSelectionSet") == 0
+//@   at call parseSelectionSet#2: assert calls("parseDirectives") == 1
+//@   at call NewOperationDefinition#2: assert arg0.Operation == operation && arg0.Name == name && arg0.VariableDefinitions == variableDefinitions && arg0.Directives == directives && arg0.SelectionSet == selectionSet
+
+// OperationType : one of query mutation subscription
+//@ func parseOperationType
+//@   props C03
+//@   nosafety
+//@   requires parser != nil && parser.Source != nil
+//@   at call expect: assert arg1 == lexer.NAME
+//@   ensures result1 == nil ==> result0 == "query" || result0 == "mutation" || result0 == "subscription"
+//@   ensures result1 == nil ==> result0 == old(parser.Token.Value)
+
+// Value[Const]: the token kind selects the alternative; a Variable only when not Const; `null` is no value
+//@ func parseValueLiteral
+//@   props C03 C18
+//@   nosafety
+//@   requires parser != nil && parser.Source != nil
+//@   at call parseList: assert parser.Token.Kind == lexer.BRACKET_L && arg1 == isConst
+//@   at call parseObject: assert parser.Token.Kind == lexer.BRACE_L && arg1 == isConst
+//@   at call parseStringLiteral: assert parser.Token.Kind == lexer.STRING || parser.Token.Kind == lexer.BLOCK_STRING
+//@   at call parseVariable: assert parser.Token.Kind == lexer.DOLLAR && !isConst
+//@   at call NewIntValue: assert old(parser.Token.Kind) == lexer.INT && arg0.Value == old(parser.Token.Value)
+//@   at call NewFloatValue: assert old(parser.Token.Kind) == lexer.FLOAT && arg0.Value == old(parser.Token.Value)
+//@   at call NewBooleanValue: assert old(parser.Token.Kind) == lexer.NAME && (arg0.Value <==> old(parser.Token.Value) == "true") && (old(parser.Token.Value) == "true" || old(parser.Token.Value) == "false")
+//@   at call NewEnumValue: assert old(parser.Token.Kind) == lexer.NAME && old(parser.Token.Value) != "true" && old(parser.Token.Value) != "false" && old(parser.Token.Value) != "null" && arg0.Value == old(parser.Token.Value)
+//@   ensures old(parser.Token.Kind) == lexer.DOLLAR && isConst ==> result1 != nil
+//@   ensures old(parser.Token.Kind) == lexer.NAME && old(parser.Token.Value) == "null" ==> result1 != nil
+
+// ListValue[Const] : [ ] | [ Value[?Const]+ ]
+//@ func parseList
+//@   props C03 C18
+//@   nosafety
+//@   requires parser != nil && parser.Source != nil
+//@   at call reverse: assert arg1 == lexer.BRACKET_L && arg3 == lexer.BRACKET_R && !arg4
+//@   loop 1 invariant len(values) == rangeindex + 1
+
+// ObjectValue[Const] : { } | { ObjectField[?Const]+ }      ObjectField[Const] : Name : Value[?Const]
+//@ func parseObject
+//@   props C03 C18
+//@   nosafety
+//@   requires parser != nil && parser.Source != nil
+//@   at call expect: assert arg1 == lexer.BRACE_L && calls("skip") == 0
+//@   at call skip: assert arg1 == lexer.BRACE_R
+//@   at call parseObjectField: assert arg1 == isConst
+//@   loop 1 ensures len(fields) == atloop(1, len(fields)) + 1
+//@ func parseObjectField
+//@   props C03 C18
+//@   nosafety
+//@   requires parser != nil && parser.Source != nil
+//@   at call parseName: assert calls("expect") == 0
+//@   at call expect: assert arg1 == lexer.COLON && calls("parseName") == 1
+//@   at call parseValueLiteral: assert calls("expect") == 1 && arg1 == isConst
+//@   at call NewObjectField: assert arg0.Name == name && arg0.Value == value
+
+// Document : Definition+ ; the first token of a definition selects operation (`{`) or keyword dispatch
+//@ func parseDocument
+//@   props C03 C18
+//@   nosafety
+//@   requires parser != nil && parser.Source != nil
+//@   at call skip: assert arg1 == lexer.EOF
+//@   at call item: assert arg0 == parser && (parser.Token.Kind == lexer.BRACE_L || parser.Token.Kind == lexer.NAME || parser.Token.Kind == lexer.STRING || parser.Token.Kind == lexer.BLOCK_STRING)
+//@   loop 1 ensures len(nodes) == atloop(1, len(nodes)) + 1 && calls("item") == atloop(1, calls("item")) + 1
